@@ -11,6 +11,16 @@
 (*   [k |-> "optulist", n, cn, cw, w]               like ulist, but count and   *)
 (*                                                  items are absent when the   *)
 (*                                                  list is empty (last field)  *)
+(*   [k |-> "fstr", n, w]                          fixed width text, NUL padded *)
+(*                                                  on the right; the value has  *)
+(*                                                  no NUL bytes                 *)
+(*   [k |-> "trest", n]                             like rest, value is text     *)
+(*   [k |-> "items", n, cn, item, min]              records whose count is the   *)
+(*                                                  earlier "u" field cn         *)
+(*   [k |-> "reclen", n, w]                         byte length of the remainder *)
+(*                                                  of this record               *)
+(* Field names may be dotted paths into embedded structures of the              *)
+(* implementation ("P9208AlarmSign.TerminalID").                                *)
 (* A value maps field names to byte strings (numbers stay big-endian byte      *)
 (* strings: TLC integers are 32 bit) and list names to sequences of values.    *)
 EXTENDS Bytes, TLC
@@ -18,11 +28,16 @@ EXTENDS Bytes, TLC
 UVal(b) == FoldLeft(LAMBDA a, x : a * 256 + x, 0, b)        \* only applied to count/length fields (small)
 UBytes(n, w) == [i \in 1..w |-> (n \div (256 ^ (w - i))) % 256]
 
+Zeros(n) == [i \in 1..n |-> 0]
+TrimR(b) == LET nz == {i \in 1..Len(b) : b[i] # 0} IN IF nz = {} THEN <<>> ELSE SubSeq(b, 1, CHOOSE i \in nz : \A j \in nz : j <= i)
+
 RECURSIVE Enc(_, _)
 Enc(L, v) ==
     IF L = <<>> THEN <<>>
     ELSE LET f == L[1] r == Enc(Tail(L), v) IN
-         CASE f.k \in {"u", "raw", "bcd", "rest"} -> v[f.n] \o r
+         CASE f.k \in {"u", "raw", "bcd", "rest", "trest", "reclen"} -> v[f.n] \o r
+           [] f.k = "fstr" -> v[f.n] \o Zeros(f.w - Len(v[f.n])) \o r
+           [] f.k = "items" -> Concat(Mat([i \in 1..Len(v[f.n]) |-> Enc(f.item, v[f.n][i])])) \o r
            [] f.k = "lstr" -> UBytes(Len(v[f.n]), f.lw) \o v[f.n] \o r
            [] f.k = "ulist" -> UBytes(Len(v[f.n]), f.cw) \o Concat(v[f.n]) \o r
            [] f.k = "optulist" -> (IF v[f.n] = <<>> THEN <<>> ELSE UBytes(Len(v[f.n]), f.cw) \o Concat(v[f.n])) \o r
@@ -39,7 +54,18 @@ Dec(L, b, acc) ==
     ELSE LET f == L[1] IN
          CASE f.k \in {"u", "raw", "bcd"} ->
                 IF Len(b) < f.w THEN Bad ELSE Dec(Tail(L), Drop(b, f.w), Put(acc, f.n, Take(b, f.w)))
-           [] f.k = "rest" -> Dec(Tail(L), <<>>, Put(acc, f.n, b))
+           [] f.k \in {"rest", "trest"} -> Dec(Tail(L), <<>>, Put(acc, f.n, b))
+           [] f.k = "fstr" ->
+                IF Len(b) < f.w THEN Bad ELSE Dec(Tail(L), Drop(b, f.w), Put(acc, f.n, TrimR(Take(b, f.w))))
+           [] f.k = "items" ->
+                LET r == DecItems(f.item, b, UVal(acc[f.cn]), <<>>) IN
+                IF ~r.ok THEN Bad ELSE Dec(Tail(L), r.rest, Put(acc, f.n, r.v))
+           [] f.k = "reclen" ->
+                IF Len(b) < f.w THEN Bad
+                ELSE LET n == UVal(Take(b, f.w)) IN
+                     IF Len(b) < f.w + n THEN Bad
+                     ELSE LET r == Dec(Tail(L), Sub(b, f.w + 1, f.w + n), Put(acc, f.n, Take(b, f.w))) IN
+                          IF ~r.ok \/ r.rest # <<>> THEN Bad ELSE [ok |-> TRUE, v |-> r.v, rest |-> Drop(b, f.w + n)]
            [] f.k = "lstr" ->
                 IF Len(b) < f.lw THEN Bad
                 ELSE LET n == UVal(Take(b, f.lw)) IN
